@@ -119,8 +119,9 @@ fn gen_case(rng: &mut Rng) -> Case {
     let mut mode = String::from("ns");
     for _ in 0..rng.range(1, 3) {
         let name = match ctx {
-            2 => rng.pick(&["g", "path", "circle", "a", "rect", "foreignObject", "title", "desc", "font", "image", "x-y"]),
-            3 => rng.pick(&["mrow", "mi", "mo", "mtext", "annotation-xml", "mfrac", "semantics"]),
+            // incl. names that are void *in HTML* and do not break out of foreign content
+            2 => rng.pick(&["g", "path", "circle", "a", "rect", "foreignObject", "title", "desc", "font", "image", "x-y", "link", "input", "source", "area", "base", "col", "param", "track", "wbr"]),
+            3 => rng.pick(&["mrow", "mi", "mo", "mtext", "annotation-xml", "mfrac", "semantics", "link", "input", "source", "param", "wbr", "keygen"]),
             _ => rng.pick(wl::HTML_NAMES),
         };
         if wl::TEXT_MODE_NAMES.contains(&name) || matches!(name, "plaintext" | "html" | "body" | "head" | "frameset" | "select" | "table" | "template") {
@@ -206,7 +207,7 @@ impl Property for C16 {
         }
     }
     fn rule(&self) -> &'static str {
-        "one run = 1-3 generated start tags with arbitrary attribute syntax (unquoted/single/double quoted, missing values, duplicate names, odd characters, '/' placements, case variants, non-ASCII names) in HTML, SVG, MathML or integration-point context, in a random encoding, with a script of case-varied get/has lookups and set/remove/rename operations each followed by a re-read; every 1-cut of the document (a chunk boundary at every byte of every tag) plus sampled schedules; getters are compared with an independent tag parser over the tag's source bytes and with a per-token model of the edits; non-trivial = a cut strictly inside a tag; distinct by scenario fingerprint"
+        "one run = 1-3 generated start tags with arbitrary attribute syntax (unquoted/single/double quoted, missing values, duplicate names, odd characters, '/' placements, case variants, non-ASCII names) in HTML, SVG, MathML or integration-point context (foreign names include those that are void in HTML only: link, input, source, param ...), in a random encoding, with a script of case-varied get/has lookups and set/remove/rename operations each followed by a re-read; every 1-cut of the document (a chunk boundary at every byte of every tag) plus sampled schedules; getters are compared with an independent tag parser over the tag's source bytes and with a per-token model of the edits; non-trivial = a cut strictly inside a tag; distinct by scenario fingerprint"
     }
     fn assumptions(&self) -> Vec<&'static str> {
         vec![
